@@ -310,7 +310,7 @@ RESOURCES = [
     # sub-resource under a parent (string) key, and a sub-sub-resource
     resource([seg("strs", P("string")), seg("subs", P("int64"))], _INNER,
              _rests(_INNER, ("get", "create", "update", "delete", "get_all", "batch_get", "batch_update", "batch_delete")) + [
-                 finder("search", _INNER, [F("q", P("string"))], paging=True),
+                 finder("search", _INNER, [F("text", P("string"))], paging=True),
                  action("promote", on_entity=True), action("purge", ret=P("int32"))]),
     resource([seg("strs", P("string")), seg("subs", P("int64")), seg("leaves", P("string"))], _INNER,
              _rests(_INNER, ("get", "update", "delete", "batch_get", "partial_update")) + [
